@@ -49,6 +49,7 @@ def base_scenarios():
     out.append(('second_reg_vs_deliver', [(s1, 2)], [(2, s1, 4)], [(2, s1, 5), (1, s1, 0)]))
     out.append(('reg_unreg_deliver', [(s1, 0)], [(2, s1, 1), (2, s1, 2)], [(2, s1, 3), (3, 1, 0), (1, s1, 0)]))
     out.append(('three_mutators', [(s1, 0), (s2, 0)], [(2, s1, 1)], [(2, s2, 2), (3, 0, 0), (2, s1, 3), (1, s1, 0)]))
+    out.append(('stale_unregister', [(s1, 0)], [(2, s1, 1), (3, 0, 0), (2, s1, 2), (3, 0, 0)], [(1, s1, 0), (2, s1, 3)]))
     out.append(('other_signal', [(s1, 0), (s2, 0)], [(2, s1, 1), (2, s2, 2)], [(1, s1, 0), (3, 1, 0), (1, s2, 0)]))
     return out
 
@@ -88,6 +89,15 @@ def gen(seed, tier, want=None):
                 i, j, l = rnd.randint(0, 20), rnd.randint(1, 25), rnd.randint(0, 20)
                 first = rnd.randint(0, 1)
                 scen.append(Scenario(name, disp, setup, acts, [first] * i + [1 - first] * j + [first] * l + [1 - first] * 60 + [first] * 60))
+        if n == 3:
+            # two families of block schedules: P^i Q* P^j R* P*  (P paused twice, Q and R run to completion in between)
+            # and P^i Q^j P* R* Q*  (P and Q each paused once), for all role assignments
+            imax, jmax, jstep = (14, 10, 2) if tier == 'quick' else (24, 16, 1)
+            for P, Q, R in itertools.permutations(range(3)):
+                for i in range(0, imax + 1):
+                    for j in range(0, jmax + 1, jstep):
+                        scen.append(Scenario(name, disp, setup, acts, [P] * i + [Q] * 70 + [P] * j + [R] * 70 + [P] * 70))
+                        scen.append(Scenario(name, disp, setup, acts, [P] * i + [Q] * j + [P] * 70 + [R] * 70 + [Q] * 70))
         for _ in range(per * 2):
             ln = rnd.randint(5, 70)
             # biased random: runs of the same activity of random length
